@@ -1,8 +1,441 @@
 package main
 
-import "verifharness/mbt"
+// The other reactors a peer can talk to: blockchain (fast sync, with the real BlockPool and poolRoutine running),
+// mempool and PEX.  Each Other(reactor, class, outcome) step runs in a child process: these reactors run goroutines
+// of their own (poolRoutine, requesters) that have no recover, so a panic there kills the process - which is exactly
+// what the parent reports as a crash.
+
+import (
+	"bytes"
+	"fmt"
+	"io"
+	"io/ioutil"
+	"net"
+	"os"
+	"time"
+
+	"github.com/spf13/viper"
+
+	"github.com/dappledger/AnnChain/gemmill/archive"
+	"github.com/dappledger/AnnChain/gemmill/blockchain"
+	crypto "github.com/dappledger/AnnChain/gemmill/go-crypto"
+	"github.com/dappledger/AnnChain/gemmill/go-wire"
+	"github.com/dappledger/AnnChain/gemmill/mempool"
+	dbm "github.com/dappledger/AnnChain/gemmill/modules/go-db"
+	"github.com/dappledger/AnnChain/gemmill/p2p"
+	"github.com/dappledger/AnnChain/gemmill/types"
+
+	"verifharness/csim"
+	"verifharness/mbt"
+)
+
+func standInPeer(byCh map[byte]p2p.Reactor, descs []*p2p.ChannelDescriptor) (*p2p.Peer, func()) {
+	c1, c2 := net.Pipe()
+	go io.Copy(ioutil.Discard, &readOnly{c2})
+	key := crypto.GenPrivKeyEd25519FromSecret([]byte("peerinput-attacker"))
+	info := &p2p.NodeInfo{PubKey: key.PubKey(), Moniker: "attacker", Network: csim.ChainID, RemoteAddr: "10.9.8.7:46656", ListenAddr: "10.9.8.7:46656", Version: "0.0.0"}
+	peer := p2p.VerifNewPeer(viper.New(), &addrConn{c1}, info, false, byCh, descs, func(p *p2p.Peer, r interface{}) {})
+	peer.Start()
+	return peer, func() { peer.Stop(); c2.Close() }
+}
+
+func recvOn(r p2p.Reactor, ch byte, peer *p2p.Peer, bz []byte) (disc bool, pval interface{}, stack string) {
+	pval, stack = mbt.Catch(func() { r.Receive(ch, peer, bz) })
+	return pval != nil, pval, stack
+}
+
+func guarded(d time.Duration, f func()) bool {
+	done := make(chan struct{})
+	go func() { f(); close(done) }()
+	select {
+	case <-done:
+		return true
+	case <-time.After(d):
+		return false
+	}
+}
 
 func (r *runner) other(si int, st mbt.Step) bool {
-	r.fail(si, "Other", "error", false, "", "not implemented", nil, nil)
-	return false
+	reactor, class, want := mbt.Str(st.Args[0]), mbt.Str(st.Args[1]), mbt.Str(st.Args[2])
+	action := fmt.Sprintf("Other(%s %s) -> %s", reactor, class, want)
+	var got, detail string
+	var wedge error
+	p, stack := mbt.Catch(func() {
+		switch reactor {
+		case "bc":
+			got, detail, wedge = runBC(class, want)
+		case "mempool":
+			got, detail, wedge = runMempool(class)
+		case "pex":
+			got, detail, wedge = runPEX(class)
+		default:
+			got = "unknown reactor"
+		}
+	})
+	r.rep.Checks++
+	r.rep.Count("other_inputs")
+	r.rep.Count("other-" + got)
+	if p != nil {
+		r.fail(si, action, "panic", true, "crash:"+reactor+":"+class, fmt.Sprintf("panic outside Receive: %v\n%s", p, stack), want, "Crash")
+		return false
+	}
+	if wedge != nil {
+		r.fail(si, action, "property", true, "wedge:"+reactor+":"+class, wedge.Error(), want, got)
+		return false
+	}
+	if got != want {
+		r.fail(si, action, "mismatch", false, "outcome:"+reactor+":"+class+":"+want+":"+got, "specification says "+want+", the real code did "+got+" "+detail, want, got)
+		return false
+	}
+	return true
+}
+
+// ---------------------------------------------------------------------------------------------
+// blockchain reactor in fast-sync mode
+
+type bcEnv struct {
+	dir      string
+	sim      *csim.Sim
+	bcR      *blockchain.BlockchainReactor
+	peer     *p2p.Peer
+	stop     func()
+	executed []int64
+	blocks   map[int64]*types.Block
+}
+
+func newBC() (*bcEnv, error) {
+	dir, err := ioutil.TempDir("", "peerinput-bc-")
+	if err != nil {
+		return nil, err
+	}
+	e := &bcEnv{dir: dir, blocks: map[int64]*types.Block{}}
+	// a real chain of three blocks made by four honest real nodes
+	s, err := csim.New(dir, powers(), nil, maxRound)
+	if err != nil {
+		return nil, err
+	}
+	e.sim = s
+	s.Start()
+	if _, err := s.Drain(3, 400); err != nil {
+		return nil, fmt.Errorf("cannot build the reference chain: %v", err)
+	}
+	for h := int64(1); h <= 3; h++ {
+		e.blocks[h] = s.Nodes[1].Store.LoadBlock(h)
+	}
+	valSet := s.Nodes[1].State.LastValidators
+	if valSet == nil || valSet.Size() == 0 {
+		valSet = s.Nodes[1].State.Validators
+	}
+	conf := viper.New()
+	conf.Set("block_part_size", 1<<20)
+	conf.Set("db_archive_dir", dir)
+	conf.Set("db_backend", "memdb")
+	store := blockchain.NewBlockStore(dbm.NewMemDB(), nil)
+	arch := archive.NewArchive("memdb", dir, 0) // threshold_blocks default
+	e.bcR = blockchain.NewBlockchainReactor(conf, 0, store, true, arch)
+	e.bcR.SetBlockVerifier(func(id types.BlockID, h int64, c *types.Commit) error { return valSet.VerifyCommit(csim.ChainID, id, h, c) })
+	e.bcR.SetBlockExecuter(func(b *types.Block, ps *types.PartSet, c *types.Commit) error {
+		e.executed = append(e.executed, b.Height)
+		store.SaveBlock(b, ps, c)
+		return nil
+	})
+	evsw := types.NewEventSwitch()
+	evsw.Start()
+	e.bcR.SetEventSwitch(evsw)
+	sw := p2p.NewSwitch(conf)
+	sw.AddReactor("BLOCKCHAIN", e.bcR)
+	if _, err := e.bcR.Start(); err != nil {
+		return nil, err
+	}
+	e.peer, e.stop = standInPeer(map[byte]p2p.Reactor{blockchain.BlockchainChannel: e.bcR}, e.bcR.GetChannels())
+	return e, nil
+}
+
+func (e *bcEnv) close() {
+	e.stop()
+	e.bcR.Stop()
+	e.sim.Close()
+	os.RemoveAll(e.dir)
+}
+
+func (e *bcEnv) recv(o interface{}) (bool, interface{}, string) {
+	return recvOn(e.bcR, blockchain.BlockchainChannel, e.peer, wire.BinaryBytes(o))
+}
+
+// announce makes the pool ask this peer for blocks 1..: returns when requesters 1 and 2 are assigned to it.
+func (e *bcEnv) announce(h int64) error {
+	if d, p, _ := e.recv(blockchain.VerifStatusResponse(h)); d {
+		return fmt.Errorf("status response disconnected: %v", p)
+	}
+	for k := 0; k < 600; k++ {
+		v := e.bcR.VerifPool().VerifView(3)
+		n := 0
+		for _, rq := range v.Requesters {
+			if rq.PeerID == e.peer.Key && rq.Height <= 2 {
+				n++
+			}
+		}
+		if n >= 2 {
+			return nil
+		}
+		time.Sleep(20 * time.Millisecond)
+	}
+	return fmt.Errorf("the pool did not assign requests 1,2 to the peer")
+}
+
+func cloneBlock(b *types.Block) *types.Block {
+	var n int
+	var err error
+	c := wire.ReadBinary(&types.Block{}, bytes.NewReader(wire.BinaryBytes(b)), types.MaxBlockSize, &n, &err).(*types.Block)
+	return c
+}
+
+func runBC(class, want string) (got, detail string, wedge error) {
+	e, err := newBC()
+	if err != nil {
+		return "setup-error", err.Error(), nil
+	}
+	defer e.close()
+	var disc bool
+	var pval interface{}
+	settle := 450 * time.Millisecond // several trySync ticks of poolRoutine (100 ms)
+	switch class {
+	case "status-ok":
+		disc, pval, _ = e.recv(blockchain.VerifStatusResponse(3))
+	case "status-zero":
+		disc, pval, _ = e.recv(blockchain.VerifStatusResponse(0))
+	case "status-neg":
+		disc, pval, _ = e.recv(blockchain.VerifStatusResponse(-5))
+	case "status-huge":
+		disc, pval, _ = e.recv(blockchain.VerifStatusResponse(1<<62 + 7))
+	case "statusreq":
+		disc, pval, _ = e.recv(blockchain.VerifStatusRequest(-1))
+	case "blockreq-unknown":
+		disc, pval, _ = e.recv(blockchain.VerifBlockRequest(5))
+	case "blockreq-huge":
+		disc, pval, _ = e.recv(blockchain.VerifBlockRequest(1<<62 + 7))
+	case "blockreq-zero":
+		disc, pval, _ = e.recv(blockchain.VerifBlockRequest(0))
+	case "blockreq-neg":
+		disc, pval, _ = e.recv(blockchain.VerifBlockRequest(-9))
+	case "raw-empty":
+		disc, pval, _ = recvOn(e.bcR, blockchain.BlockchainChannel, e.peer, []byte{})
+	case "raw-unknowntype":
+		disc, pval, _ = recvOn(e.bcR, blockchain.BlockchainChannel, e.peer, []byte{0x7f, 1, 2, 3})
+	case "raw-truncated":
+		bz := wire.BinaryBytes(blockchain.VerifBlockResponse(e.blocks[1]))
+		disc, pval, _ = recvOn(e.bcR, blockchain.BlockchainChannel, e.peer, bz[:len(bz)/2])
+	case "resp-unsolicited-nil":
+		disc, pval, _ = e.recv(blockchain.VerifBlockResponse(nil))
+	case "resp-unsolicited-valid":
+		disc, pval, _ = e.recv(blockchain.VerifBlockResponse(e.blocks[1]))
+	case "resp-unsolicited-nil-header":
+		b := cloneBlock(e.blocks[1])
+		b.Header = nil
+		disc, pval, _ = e.recv(blockchain.VerifBlockResponse(b))
+	default:
+		// requested-*: the pool asked this peer for blocks 1 and 2
+		if err := e.announce(3); err != nil {
+			return "setup-error", err.Error(), nil
+		}
+		b1, b2 := cloneBlock(e.blocks[1]), cloneBlock(e.blocks[2])
+		switch class {
+		case "requested-nil":
+			b1 = nil
+		case "requested-nil-header":
+			b1.Header = nil
+		case "requested-nil-data":
+			b1.Data = nil
+		case "requested-nil-lastcommit":
+			b1.LastCommit = nil
+		case "requested-wrong-height":
+			b1.Header.Height = 2
+		case "requested-second-nil-lastcommit":
+			b2.LastCommit = nil
+		case "requested-second-nil-data":
+			b2.Data = nil
+		case "requested-second-commit-nil-entries":
+			b2.LastCommit = &types.Commit{BlockID: b2.LastCommit.BlockID, Precommits: make([]*types.Vote, 4)}
+		case "requested-second-commit-empty":
+			b2.LastCommit = &types.Commit{}
+		case "requested-second-commit-short":
+			b2.LastCommit.Precommits = b2.LastCommit.Precommits[:2]
+		case "requested-second-commit-bad-vote":
+			v := *b2.LastCommit.Precommits[0]
+			v.ValidatorIndex = -1
+			v.ValidatorAddress = nil
+			v.Signature = nil
+			b2.LastCommit.Precommits[0] = &v
+		case "requested-second-commit-neg-height":
+			for _, v := range b2.LastCommit.Precommits {
+				if v != nil {
+					v.Height = -3
+				}
+			}
+		case "requested-valid":
+		default:
+			return "unknown class", "", nil
+		}
+		disc, pval, _ = e.recv(blockchain.VerifBlockResponse(b1))
+		if !disc && b1 != nil && b1.Header != nil {
+			d2, p2, _ := e.recv(blockchain.VerifBlockResponse(b2))
+			disc, pval = d2, p2
+		}
+		time.Sleep(settle) // poolRoutine verifies (and executes) in its own goroutine: a panic there ends this process
+		for k := 0; want == "Accept" && len(e.executed) == 0 && k < 80; k++ {
+			time.Sleep(100 * time.Millisecond)
+		}
+		if class == "requested-valid" {
+			if len(e.executed) == 0 || e.executed[0] != 1 {
+				return "Drop", "", fmt.Errorf("valid blocks 1 and 2 from the requested peer were not executed (executed: %v)", e.executed)
+			}
+			return "Accept", "", nil
+		}
+		if len(e.executed) > 0 {
+			return "Accept", fmt.Sprintf("executed %v", e.executed), nil
+		}
+	}
+	time.Sleep(150 * time.Millisecond)
+	// no wedge: the pool still answers (its lock is free) and the reactor still serves a status request
+	ok := guarded(5*time.Second, func() {
+		e.bcR.VerifPool().VerifView(3)
+		p, stop := standInPeer(map[byte]p2p.Reactor{blockchain.BlockchainChannel: e.bcR}, e.bcR.GetChannels())
+		recvOn(e.bcR, blockchain.BlockchainChannel, p, wire.BinaryBytes(blockchain.VerifStatusRequest(1)))
+		stop()
+	})
+	if !ok {
+		wedge = fmt.Errorf("the blockchain reactor / pool is blocked after the message (lock held)")
+	}
+	if disc {
+		return "Disconnect", fmt.Sprint(pval), wedge
+	}
+	return "Drop", "", wedge
+}
+
+// ---------------------------------------------------------------------------------------------
+// mempool reactor with the real gemmill Mempool
+
+func runMempool(class string) (got, detail string, wedge error) {
+	conf := viper.New()
+	conf.Set("block_size", 100)
+	pool := mempool.NewMempool(conf)
+	memR := mempool.NewTxReactor(conf, pool)
+	peer, stop := standInPeer(map[byte]p2p.Reactor{mempool.MempoolChannel: memR}, memR.GetChannels())
+	defer stop()
+	enc := func(tx []byte) []byte { return append([]byte{0x01}, wire.BinaryBytes(tx)...) }
+	var bz []byte
+	switch class {
+	case "tx-small":
+		bz = enc([]byte("hello"))
+	case "tx-empty":
+		bz = enc([]byte{})
+	case "tx-big":
+		bz = enc(bytes.Repeat([]byte{7}, 1000000))
+	case "tx-over-limit":
+		bz = enc(bytes.Repeat([]byte{7}, 1100000))
+	case "tx-length-lie":
+		bz = []byte{0x01, 0x05, 0xff, 0xff, 0xff, 0xff, 0xff, 1, 2, 3}
+	case "tx-neg-length":
+		bz = []byte{0x01, 0xf1, 0x05, 1, 2, 3}
+	case "raw-empty":
+		bz = []byte{}
+	case "raw-unknowntype":
+		bz = []byte{0x7f, 1, 2}
+	case "raw-nilmsg":
+		bz = []byte{0x00}
+	case "tx-duplicate":
+		recvOn(memR, mempool.MempoolChannel, peer, enc([]byte("dup")))
+		bz = enc([]byte("dup"))
+	default:
+		return "unknown class", "", nil
+	}
+	before := pool.Size()
+	disc, pval, _ := recvOn(memR, mempool.MempoolChannel, peer, bz)
+	after := pool.Size()
+	if !guarded(5*time.Second, func() { pool.ReceiveTx(types.Tx("fresh-after")); pool.Reap(-1) }) {
+		wedge = fmt.Errorf("the mempool is blocked after the message")
+	} else if pool.Size() != after+1 {
+		wedge = fmt.Errorf("the mempool does not take a fresh transaction after the message")
+	}
+	switch {
+	case disc:
+		return "Disconnect", fmt.Sprint(pval), wedge
+	case after > before:
+		return "Accept", "", wedge
+	}
+	return "Drop", "", wedge
+}
+
+// ---------------------------------------------------------------------------------------------
+// PEX reactor with a real AddrBook
+
+type wireAddr struct {
+	IP   []byte
+	Port uint16
+}
+
+func runPEX(class string) (got, detail string, wedge error) {
+	dir, _ := ioutil.TempDir("", "peerinput-pex-")
+	defer os.RemoveAll(dir)
+	book := p2p.NewAddrBook(dir+"/addrbook.json", true)
+	pexR := p2p.NewPEXReactor(book)
+	sw := p2p.NewSwitch(viper.New())
+	sw.AddReactor("PEX", pexR)
+	peer, stop := standInPeer(map[byte]p2p.Reactor{p2p.PexChannel: pexR}, pexR.GetChannels())
+	defer stop()
+	addrs := func(l []*wireAddr) []byte { return append([]byte{0x02}, wire.BinaryBytes(struct{ Addrs []*wireAddr }{l})...) }
+	good := &wireAddr{IP: net.IPv4(8, 8, 4, 4).To4(), Port: 46656}
+	var bz []byte
+	switch class {
+	case "request":
+		bz = []byte{0x01}
+	case "addrs-ok":
+		bz = addrs([]*wireAddr{good, {IP: net.IPv4(9, 9, 9, 9).To4(), Port: 1}})
+	case "addrs-empty":
+		bz = addrs(nil)
+	case "addrs-nil-entry":
+		bz = addrs([]*wireAddr{good, nil})
+	case "addrs-empty-ip":
+		bz = addrs([]*wireAddr{{IP: []byte{}, Port: 1}})
+	case "addrs-odd-ip":
+		bz = addrs([]*wireAddr{{IP: []byte{1, 2, 3}, Port: 1}, {IP: bytes.Repeat([]byte{9}, 100), Port: 2}})
+	case "addrs-port-zero":
+		bz = addrs([]*wireAddr{{IP: net.IPv4(8, 8, 4, 4).To4(), Port: 0}})
+	case "addrs-loopback":
+		bz = addrs([]*wireAddr{{IP: net.IPv4(127, 0, 0, 1).To4(), Port: 46656}, {IP: net.IPv4(10, 0, 0, 1).To4(), Port: 2}})
+	case "addrs-many":
+		var l []*wireAddr
+		for i := 0; i < 20000; i++ {
+			l = append(l, &wireAddr{IP: net.IPv4(byte(11+i%200), byte(i>>8), byte(i), 1).To4(), Port: uint16(1 + i%60000)})
+		}
+		bz = addrs(l)
+	case "addrs-count-lie":
+		bz = []byte{0x02, 0x05, 0xff, 0xff, 0xff, 0xff, 0xff, 0x01}
+	case "addrs-neg-count":
+		bz = []byte{0x02, 0xf1, 0x09}
+	case "raw-empty":
+		bz = []byte{}
+	case "raw-unknowntype":
+		bz = []byte{0x7f}
+	default:
+		return "unknown class", "", nil
+	}
+	before := book.Size()
+	disc, pval, _ := recvOn(pexR, p2p.PexChannel, peer, bz)
+	after := book.Size()
+	if !guarded(5*time.Second, func() {
+		na, _ := p2p.NewNetAddressString("8.8.8.8:46656")
+		book.AddAddress(na, na)
+		book.GetSelection()
+		book.PickAddress(50)
+	}) {
+		wedge = fmt.Errorf("the address book is blocked after the message (lock held)")
+	}
+	switch {
+	case disc:
+		return "Disconnect", fmt.Sprint(pval), wedge
+	case after > before:
+		return "Accept", "", wedge
+	}
+	return "Drop", "", wedge
 }
